@@ -264,6 +264,7 @@ class ProvWorld:
         self.provider_netloc = self.w.provider_server.netloc
         self.futures = []
         self._proposals = {}
+        self._enq0 = self.worker._operations_queue.unfinished_tasks
         # the worker was started before its queue was instrumented: wait until it has left the get() call it was in (<= 1 s)
         with ctl.cond:
             if not ctl.cond.wait_for(lambda: ctl.get_calls > 0, 5):
@@ -403,15 +404,20 @@ class ProvWorld:
             return ss.set_alert_state(handle, self._proposal(ci, 'alert'))
         raise ValueError(kind)
 
+    def enqueued(self):
+        """operations really put into the worker's queue, as counted by the queue itself (the worker never calls
+        task_done); independent of what the response claims"""
+        return self.worker._operations_queue.unfinished_tasks - self._enq0
+
     def settle(self, timeout=20.0):
         ctl = self.ctl
         with ctl.cond:
             # stable: every released operation is finished with (its last report is out, the worker came back), and
             # the next accepted one, if any, waits at the gate (its Wait/Start reports are out)
             ok = ctl.cond.wait_for(
-                lambda: ctl.entered == min(ctl.accepted, ctl.released + 1) and ctl.completed == ctl.released, timeout)
+                lambda: ctl.entered == min(self.enqueued(), ctl.released + 1) and ctl.completed == ctl.released, timeout)
         if not ok:
-            ctl.errors.append(f'settle timeout entered={ctl.entered} accepted={ctl.accepted} released={ctl.released} '
+            ctl.errors.append(f'settle timeout entered={ctl.entered} enqueued={self.enqueued()} released={ctl.released} '
                               f'completed={ctl.completed} notifs={ctl.worker_notifs}')
         return ok
 
@@ -450,7 +456,7 @@ class ProvWorld:
         aborted = None
         while True:
             if i >= len(ops):
-                if ctl.accepted > ctl.released:
+                if self.enqueued() > ctl.released:
                     ops.append(['finish'])          # drain: every case ends with the worker at rest
                 else:
                     break
@@ -476,6 +482,7 @@ class ProvWorld:
                     else:
                         ctl.direct_plans[handle] = (idx, plan)
                 n0 = len(self.w.net.log)
+                enq_before = self.enqueued()
                 fut, exc = None, None
                 try:
                     fut = self.call(ci, kind, handle, variant)
@@ -490,10 +497,10 @@ class ProvWorld:
                 resp = parse_response(ex_rec) if ex_rec is not None else [0]
                 resps.append(resp)
                 if known and mode == 'queued':
-                    if resp[0] == 1:
+                    if self.enqueued() > enq_before:
                         ctl.accepted += 1
                     else:
-                        ctl.queued_plans[handle].pop()
+                        ctl.queued_plans[handle].pop()      # nothing was queued: the handler will never ask for this plan
                 futs.append([idx, ci, fut, exc])
                 events.append(['req', ci, kind, known, mode, plan, variant])
             if not self.settle():
